@@ -13,6 +13,11 @@
 #include <kernel/lafem/sparse_matrix_csr.hpp>
 #include <kernel/lafem/vector_mirror.hpp>
 #include <kernel/global/gate.hpp>
+#include <kernel/global/muxer.hpp>
+#include <kernel/lafem/tuple_vector.hpp>
+#include <kernel/lafem/tuple_mirror.hpp>
+#include <kernel/lafem/power_vector.hpp>
+#include <kernel/lafem/power_mirror.hpp>
 
 using namespace FEAT;
 using verif::Cur;
@@ -112,8 +117,8 @@ struct Gates
 };
 
 // emulated SynchVectorTicket over all patches; returns false if some posted receive has no matching send
-template<typename VT_>
-static bool emulated_sync0(const Gates<VT_>& G, std::vector<VT_>& vecs, const std::vector<std::vector<Index>>& ords)
+template<typename Gates_, typename VT_>
+static bool emulated_sync0(const Gates_& G, std::vector<VT_>& vecs, const std::vector<std::vector<Index>>& ords)
 {
   const std::size_t np = vecs.size();
   // constructor part: every patch gathers one send buffer per neighbour from its unsynchronised vector
@@ -273,10 +278,17 @@ static bool dispatch(const std::string& op, Cur& c, std::ostream& o, Index bs)
   return true;
 }
 
+#include "composite.hpp"
+
 static void handle(const verif::Tokens& t, std::ostream& o)
 {
   Cur c(t);
   std::string op = c.str();
+  if(op == "csync0" || op == "csync1" || op == "cdot" || op == "cmuxjoin" || op == "cmuxsplit")
+  {
+    if(!composite_dispatch(op, c, o)) o << "BAD-OP";
+    return;
+  }
   if(op == "gapply") { op_gapply(c, o); return; }
   if(op == "freqs" || op == "sync0" || op == "sync1" || op == "dot" || op == "mgather" || op == "mscatter")
   {
